@@ -5,7 +5,7 @@ keeps everything else, use_multiline_strategy changes only the strategy, the vis
 contexts and fresh per construction).  This module verifies that model against the class's *source*: the methods are
 interpreted on an object with symbolic fields and the resulting objects are compared field by field (identity for
 'kept', provenance for 'changed').  Independent of how _replace / __init__ are written."""
-from engine.interp import (Const, Sym, SymStr, SetV, DictV, ObjV, TypeV, ListV, TupleV, Undecided, Raised, NONE, prov)
+from engine.interp import (Const, Sym, SymStr, SetV, DictV, ObjV, TypeV, ListV, TupleV, Undecided, Raised, PathLimit, NONE, prov)
 from engine.loader import AnalysisError
 from . import shape as S
 
@@ -154,6 +154,48 @@ def _may_be_context(expr, f, depth=0):
     return any(_may_be_context(d, f, depth + 1) for d in defs if not isinstance(d, (ast.Constant, ast.List, ast.Tuple, ast.Dict)))
 
 
+_DERIVE_CACHE = {}
+
+
+def _derives_like_public(repo, f, call):
+    """f is a module-level function whose parameter is the receiver of the private call; interpreted on a context with symbolic fields
+    (other parameters unknown) it returns, on every path, a context of the same class that keeps indent, max_seq_len, sort_dict_keys,
+    user_ctx and the visited set (the same objects) and whose depth_left is the old one or the old one minus 1"""
+    import ast
+    key = (id(repo), f.key)
+    if key in _DERIVE_CACHE and _DERIVE_CACHE[key][0] is repo:
+        return _DERIVE_CACHE[key][1]
+    ok = False
+    try:
+        recv = call.func.value
+        if f.cls is None and f.parent is None and isinstance(recv, ast.Name) and recv.id in f.params:
+            it = _fresh(repo)
+            T = TypeV('PrettyContext')
+            given = SetV([])
+            base_kw = {'indent': Sym('I'), 'depth_left': Sym('D', 'int'), 'visited': given, 'multiline_strategy': Sym('M'),
+                       'max_seq_len': Sym('N'), 'sort_dict_keys': Sym('S'), 'user_ctx': DictV([(Const('u'), Sym('U'))])}
+            c0 = it.construct(T, [], dict(base_kw), None)
+            args = [c0 if p_ == recv.id else Sym('ARG_' + p_) for p_ in f.params]
+            prs = it.explore(f, args, {})
+            ok = bool(prs)
+            for pr in prs:
+                r = pr.value
+                if pr.raised is not None or not (isinstance(r, ObjV) and r.cls.name == 'PrettyContext'):
+                    ok = False
+                    break
+                for fld in ('indent', 'max_seq_len', 'sort_dict_keys', 'user_ctx', 'visited'):
+                    if r.attrs.get(fld) is not c0.attrs.get(fld):
+                        ok = False
+                d = r.attrs.get('depth_left')
+                if not (d is c0.attrs.get('depth_left') or (isinstance(d, Sym) and d.prov.replace(' ', '') in ('(D-1)', 'D-1'))):
+                    ok = False
+    except (Undecided, Raised, PathLimit, AnalysisError):
+        ok = False
+    _DERIVE_CACHE.clear()
+    _DERIVE_CACHE[key] = (repo, ok)
+    return ok
+
+
 def construction_sites(repo, rep, rule, why=''):
     """who-may-construct: a context is built from scratch only by the pipeline entry (python_to_sdocs) and by the class itself;
     everybody else derives one from the context it was handed, through the public methods the model above verifies (the private
@@ -197,6 +239,12 @@ def construction_sites(repo, rep, rule, why=''):
                           'constructor default for everything printed below' % ((why + ': ') if why else '', f.key, c.func.attr), nontrivial=True)
             elif isinstance(c.func, ast.Attribute) and c.func.attr in private and not inside_class and not _may_be_context(c.func.value, f):
                 continue        # the receiver is not a context (a namedtuple's _replace, another class's private method)
+            elif isinstance(c.func, ast.Attribute) and c.func.attr in private and not inside_class and _derives_like_public(repo, f, c):
+                # a helper that calls the private copier on the context it was handed and, interpreted, returns what the public
+                # derivation methods return: every setting and the visited set kept, the depth the same or one less
+                n += 1
+                rep.ok(rule, 'private-context-method:%s:%s' % (f.qualname, c.func.attr), '%s:%d' % (f.module.relpath, c.lineno),
+                       'interpreted: derives a context the way nested_call / use_multiline_strategy do')
             elif isinstance(c.func, ast.Attribute) and c.func.attr in private and not inside_class:
                 # a private method of the context class called on something that may be a context
                 n += 1
